@@ -1885,6 +1885,8 @@ impl World {
                             "sstreams":p.streams.send.iter().filter(|x| x.unacked > 0 && x.state < 3)
                                 .map(|x| json!([x.id, x.unacked.min(1 << 30), x.state])).collect::<Vec<_>>(),
                             "ifb":p.path.in_flight_bytes,"ifae":p.path.in_flight_ack_eliciting,"st":p.state,
+                            "sall":p.streams.send.iter().map(|x| json!([x.id, x.state, x.stop_reason.map_or(-1, |c| c.min(1 << 30) as i64)])).collect::<Vec<_>>(),
+                            "rall":p.streams.recv.iter().map(|x| json!([x.id, x.state, x.stopped])).collect::<Vec<_>>(),
                             "tm0":p.timers[0].unwrap_or(-1),"tm6":p.timers[6].unwrap_or(-1),
                             "pcrypto":p.spaces[0].pending_crypto + p.spaces[1].pending_crypto,
                             "hsout":p.spaces[0].sent.iter().chain(p.spaces[1].sent.iter()).filter(|x| x.2).count(),
